@@ -130,6 +130,74 @@ fn one_shape(rep: &mut Rep, rng: &mut Rng, w: u8, h: u8, dc: u8, counts: &[u8], 
             return;
         }
     }
+    // the printer is an Iterator: every way of walking it gives the cells in printing order (column by column through
+    // skip + step_by, a row with next() and then a jump with nth(), last / count, a clone taken half-way)
+    {
+        let walks = guard(|| {
+            let mut out: Vec<(&'static str, Vec<String>, Vec<String>)> = Vec::new();
+            let wu = w as usize;
+            // columns
+            let mut got = Vec::new();
+            let mut want = Vec::new();
+            for x in 0..wu.min(3) {
+                got.extend(card.to_printer().skip(x).step_by(wu).take(cells + 2));
+                want.extend(printed.iter().skip(x).step_by(wu).cloned());
+            }
+            out.push(("skip_step_by", got, want));
+            // first row with next(), then nth jumps
+            let mut p = card.to_printer();
+            let mut got = Vec::new();
+            let mut want = Vec::new();
+            let mut pos = 0usize;
+            for _ in 0..wu.min(cells) {
+                if let Some(c) = p.next() {
+                    got.push(c);
+                }
+                want.push(printed[pos].clone());
+                pos += 1;
+            }
+            let mut jump = 0usize;
+            while pos + jump < cells && got.len() < 64 {
+                if let Some(c) = p.nth(jump) {
+                    got.push(c);
+                }
+                want.push(printed[pos + jump].clone());
+                pos += jump + 1;
+                jump = (jump * 2 + 1) % 7;
+            }
+            // what is left, through a clone of the used printer
+            let rest: Vec<String> = p.clone().collect();
+            got.extend(rest);
+            want.extend(printed[pos..].iter().cloned());
+            out.push(("next_then_nth_then_clone", got, want));
+            let mut p = card.to_printer();
+            let _ = p.next();
+            let n = p.count();
+            out.push(("count_after_next", vec![n.to_string()], vec![cells.saturating_sub(1).to_string()]));
+            out.push(("last", card.to_printer().last().into_iter().collect(), printed.last().cloned().into_iter().collect()));
+            out
+        });
+        rep.ev(4);
+        rep.count("printer_walks", 4);
+        match walks {
+            Err(e) => {
+                rep.violation("c18:panic:printer_walk", e, replay());
+                return;
+            }
+            Ok(ws) => {
+                for (name, got, want) in ws {
+                    if got != want {
+                        rep.violation(
+                            &format!("c18:printing_order:{}", name),
+                            format!("walking the printer of a {}x{} card by {} gives {:?}..., the cells in printing order are {:?}...", w, h, name, &got[..got.len().min(6)], &want[..want.len().min(6)]),
+                            replay(),
+                        );
+                        return;
+                    }
+                }
+            }
+        }
+    }
     if card.width() != w || card.height() != h || card.digit_count() != dc || card.data() != &data[..] {
         rep.violation("c18:accessors", "width/height/digit_count/data accessors differ from the constructor arguments".into(), replay());
     }
